@@ -14,7 +14,7 @@ CLAIMS["C06"] = dict(
          "_setWeight_or_spread returns the n x p array whose (i,j) entry is the scalar / x[j] per state / x[i] per observation (p=1) / x[i][j] on every documented shape "
          "(broadcast_spec), succeeds on exactly the numpy shapes (1,), (p,), (n,) with p=1, (n,p), (1,p), (1,1) and a broadcastable (p,1) column (broadcast_accepts_iff), "
          "raises ValueError only for ragged input or a non-broadcastable (p,1) column and AssertionError otherwise (broadcast_error_class); column j of what the kernel sees is "
-         "the j-th NAMED state in the order given and row i is time i (solution_selection); cost = sum_i sum_j kernel(y_ij, x_i[idxOf name_j], w_ij, spread_ij) (cost_is_loss); "
+         "the j-th NAMED state in the order given and row i is time i (solution_selection); with target_param the k-th value is bound to the k-th supplied name (theta_bound_by_name); cost = sum_i sum_j kernel(y_ij, x_i[idxOf name_j], w_ij, spread_ij) (cost_is_loss); "
          "square cost is 0 when the data equal the model values (square_cost_zero_at_truth, any ring). Tied to the code on every run: _setWeight_or_spread and get_state_index "
          "against the Lean driver exactly (accepted and rejected shapes, exception class and site); cost / residual / costIV of the five real loss classes against scipy.stats "
          "log-densities of an independent DOP853 (1e-12) trajectory of the Lean-assembled right-hand side, for 1-3 observed states in any order, every weight / spread shape, "
@@ -37,8 +37,8 @@ CLAIMS["C07"] = dict(
          "Tied to the code on every run: _getTargetParamIndex / _getTargetParamSensIndex / _getTargetStateSensIndex / sens_to_grad against the Lean driver exactly on integer arrays; "
          "sensitivity / gradient / sensitivityIV / jac (all five classes, five integrator methods, full_output) against Richardson-extrapolated central differences of the independent reference cost "
          "and of pygom's own cost.",
-    note="On the UNPATCHED /repo this check reports VIOLATION (five genuine defects: wrong gradient for observed states not in ascending index order; gradient in sorted instead of supplied "
-         "target_param order; GammaLoss with one observed state raises; sensitivityIV with target_state raises TypeError; a per-observation weight vector with one observed state raises) - "
+    note="On /repo without proposed_fixes/C07-*.diff this check reports VIOLATION (genuine defects: wrong gradient for observed states not in ascending index order; gradient in sorted instead of supplied "
+         "target_param order; sensitivityIV with target_state raises TypeError; a per-observation weight vector with one observed state raises; GammaLoss with one observed state raised until fix 9a6447c) - "
          "see proposed_fixes/C07-*.diff, findings/C07_demo.py, corpus/C07/. Trusted: Lean kernel + Mathlib; harness generator, reference integration, finite differences "
          "(tolerance 1e-4 (1+|fd|) on the 1e-12 reference; 1e-3 (1+|fd|) + 1e-7 scale/h on pygom's own cost). Non-unit weights are exercised for Square and Normal only.",
     technique="Lean 4 + Mathlib HasDerivAt (chain rule over list sums), permutation/sortedness of index lists, decide counterexamples; model/code correspondence; finite-difference oracle")
